@@ -2,6 +2,7 @@ package rg
 
 import (
 	"fmt"
+	"go/constant"
 	"go/token"
 	"go/types"
 	"sort"
@@ -1141,10 +1142,11 @@ var rR20e = RuleRef{Name: "R20e", Doc: "every line of the configuration file is 
 				}
 				// an edge on which the line is known to be empty
 				emptyEdge := func(from, to *ssa.BasicBlock) bool {
-					cond, val, ok := branchCond(from, to)
+					cond, neg, ok := branchCond(from, to)
 					if !ok {
 						return false
 					}
+					val := !neg
 					bo, ok := cond.(*ssa.BinOp)
 					if !ok {
 						return false
@@ -1175,9 +1177,57 @@ var rR20e = RuleRef{Name: "R20e", Doc: "every line of the configuration file is 
 					return false
 				}
 				var bad []string
-				seen := map[*ssa.BasicBlock]bool{}
-				var scan func(b *ssa.BasicBlock, start int)
-				scan = func(b *ssa.BasicBlock, start int) {
+				// what is known about boolean loop flags on the path walked (for atEOF := false; !atEOF; { .. atEOF = err == io.EOF }):
+				// the branches that dominate the read, then every branch taken; a phi takes the fact of the value that comes in
+				// over the edge walked
+				type facts map[ssa.Value]bool
+				boolFact := func(f facts, v ssa.Value) (bool, bool) {
+					neg := false
+					for {
+						if u, ok := v.(*ssa.UnOp); ok && u.Op == token.NOT {
+							v, neg = u.X, !neg
+							continue
+						}
+						break
+					}
+					if k, ok := v.(*ssa.Const); ok && k.Value != nil && k.Value.Kind() == constant.Bool {
+						return constant.BoolVal(k.Value) != neg, true
+					}
+					if val, ok := f[v]; ok {
+						return val != neg, true
+					}
+					return false, false
+				}
+				learn := func(f facts, cond ssa.Value, val bool) {
+					for {
+						if u, ok := cond.(*ssa.UnOp); ok && u.Op == token.NOT {
+							cond, val = u.X, !val
+							continue
+						}
+						break
+					}
+					if _, isPhi := cond.(*ssa.Phi); isPhi {
+						f[cond] = val
+					}
+				}
+				start := facts{}
+				for d := b; d != nil && d.Idom() != nil; d = d.Idom() {
+					id := d.Idom()
+					if iff, ok := id.Instrs[len(id.Instrs)-1].(*ssa.If); ok && len(d.Preds) == 1 && d.Preds[0] == id {
+						learn(start, iff.Cond, id.Succs[0] == d)
+					}
+				}
+				key := func(b *ssa.BasicBlock, f facts) string {
+					var ks []string
+					for v, val := range f {
+						ks = append(ks, fmt.Sprintf("%s=%v", v.Name(), val))
+					}
+					sort.Strings(ks)
+					return fmt.Sprintf("%d|%s", b.Index, strings.Join(ks, ","))
+				}
+				seen := map[string]bool{}
+				var scan func(b *ssa.BasicBlock, start int, f facts)
+				scan = func(b *ssa.BasicBlock, start int, f facts) {
 					for i := start; i < len(b.Instrs); i++ {
 						x := b.Instrs[i]
 						if consumes(x) || isRead(x) || noReturnCall(x) {
@@ -1199,15 +1249,52 @@ var rR20e = RuleRef{Name: "R20e", Doc: "every line of the configuration file is 
 							return
 						}
 					}
-					for _, s := range b.Succs {
-						if seen[s] || emptyEdge(b, s) {
+					iff, _ := b.Instrs[len(b.Instrs)-1].(*ssa.If)
+					for si, s := range b.Succs {
+						if emptyEdge(b, s) {
 							continue
 						}
-						seen[s] = true
-						scan(s, 0)
+						if iff != nil && b.Succs[0] != b.Succs[1] {
+							if val, ok := boolFact(f, iff.Cond); ok && val != (si == 0) {
+								continue // the flag is known to send this path the other way
+							}
+						}
+						nf := facts{}
+						for v, val := range f {
+							if in, ok := v.(ssa.Instruction); ok && in.Block() == s {
+								continue // recomputed on entry
+							}
+							nf[v] = val
+						}
+						if iff != nil && b.Succs[0] != b.Succs[1] {
+							learn(nf, iff.Cond, si == 0)
+						}
+						pi := -1
+						for k, p := range s.Preds {
+							if p == b {
+								pi = k
+							}
+						}
+						for _, in := range s.Instrs {
+							phi, ok := in.(*ssa.Phi)
+							if !ok {
+								break
+							}
+							if pi >= 0 {
+								if val, ok := boolFact(f, phi.Edges[pi]); ok {
+									nf[phi] = val
+								}
+							}
+						}
+						k := key(s, nf)
+						if seen[k] {
+							continue
+						}
+						seen[k] = true
+						scan(s, 0, nf)
 					}
 				}
-				scan(b, instrIndex(call)+1)
+				scan(b, instrIndex(call)+1, start)
 				c.Add("R20e", fnName(fn), "a line read with io.EOF is still applied", call.Pos(), len(bad) == 0, strings.Join(uniq(bad), "; "))
 			}
 		}
@@ -1776,4 +1863,31 @@ func thinGetter(fn *ssa.Function) (string, bool) {
 		}
 	}
 	return field, field != ""
+}
+
+// stripBoolCompare: `present == true`, `present != false` (a switch on a boolean) are tests of `present`.
+func stripBoolCompare(cond ssa.Value, neg bool) (ssa.Value, bool) {
+	for d := 0; d < 3; d++ {
+		bo, ok := cond.(*ssa.BinOp)
+		if !ok || (bo.Op != token.EQL && bo.Op != token.NEQ) {
+			return cond, neg
+		}
+		var other ssa.Value
+		var k *ssa.Const
+		if kk, isK := bo.Y.(*ssa.Const); isK {
+			other, k = bo.X, kk
+		} else if kk, isK := bo.X.(*ssa.Const); isK {
+			other, k = bo.Y, kk
+		}
+		if k == nil || k.Value == nil || !isBoolType(k.Type()) {
+			return cond, neg
+		}
+		truth := k.Value.ExactString() == "true"
+		// other == true: same; other == false: negated; != flips again
+		if (bo.Op == token.EQL) != truth {
+			neg = !neg
+		}
+		cond = other
+	}
+	return cond, neg
 }
